@@ -145,6 +145,15 @@ class History:
                                         info['author'])
         elif op == 'move_dst':
             w.move_destination(step['branch'])
+        elif op == 'delete_w':
+            # a developer deletes an integration branch by hand (the conflict
+            # message asks for it in one case)
+            info = w.prs.get(step['pr'])
+            if info:
+                ws = sorted(n for n in w.heads() if n.startswith('w/') and
+                            n.split('/', 2)[2] == info['src'])
+                if ws:
+                    w.delete_branch(ws[step['w'] % len(ws)])
         elif op == 'fresh':
             w.new_berte()
         elif op == 'pr_event':
